@@ -5,7 +5,6 @@ pub mod c01;
 pub mod c02;
 #[cfg(not(feature = "tk"))]
 pub mod c03;
-#[cfg(not(feature = "tk"))]
 pub mod c04;
 #[cfg(not(feature = "tk"))]
 pub mod c07;
@@ -41,5 +40,5 @@ pub fn all() -> Vec<Box<dyn Prop>> {
 /// The tokio twin (built in /verif/tk): the same properties on the async runtime.
 #[cfg(feature = "tk")]
 pub fn all() -> Vec<Box<dyn Prop>> {
-    vec![Box::new(tk::C01T), Box::new(tk::C02T), Box::new(tk::C20T)]
+    vec![Box::new(tk::C01T), Box::new(tk::C02T), Box::new(tk::C04T), Box::new(tk::C20T)]
 }
